@@ -114,6 +114,10 @@ def search(ctx):
             a = np.array([0, 0, 9.8]) + rng.standard_normal(3) * 1e-9 * (it % 2)    # free fall: thrust ~ 0
         if it % 7 == 1:
             a = np.array([0, 0, 9.8]) - 3 * np.array([math.cos(psi), math.sin(psi), 0])   # thrust parallel to heading
+        if it % 7 in (2, 5):
+            # demanded acceleration beyond free fall: the thrust axis points BELOW the horizon (inverted flight), heading turning
+            a = np.array([rng.standard_normal() * 2, rng.standard_normal() * 2, 9.8 + rng.uniform(1.0, 12.0)])
+            psid = float(rng.choice([-1.3, 0.7, 2.1]))
         vb, quat, om, omd, Mb, T = fr(psi, psid, psidd, v, a, j, s); ev += 1
         vb2, C, om2, omd2, Mb2, T2 = mr(psi, psid, psidd, v, a, j, s, MB, 9.8, JB[0], JB[1], JB[2], JB[3]); ev += 1
         inp = {"psi": psi, "psi_dot": psid, "psi_ddot": psidd, "v_e": v.tolist(), "a_e": a.tolist(), "j_e": j.tolist(), "s_e": s.tolist()}
